@@ -160,6 +160,10 @@ pub fn sliced_session(forms: &[String], m: u64, seed: u64) -> String {
                     out.push_str(" OK ");
                     out.push_str(&esc(&format!("{:#}", c)));
                 }
+                Err(Error::InvalidSyntax(ref m)) if m == "TOO MANY SLICES" => {
+                    // the evaluation did not finish within the slice limit: the model says NOFUEL there
+                    out.push_str(" NOFUEL");
+                }
                 Err(e) => {
                     out.push(' ');
                     out.push_str(&show_error(&e));
